@@ -106,9 +106,25 @@ def prepareTag (T : Tables) (order : List Str) (g : Gen) (tag : Str) (bind : Opt
     | _ => throw .notImplementedError
   pure ⟨orderPairs order ordered st.attrs, newContents, st.ctx⟩
 
+/-- the transforms up to and including the tabindex counter write -/
+def transformPrefix (T : Tables) (tag : Str) (bind : Option Bind) (st : TState) : Except PyErr TState := do
+  let st ← transformName T tag bind st
+  let st ← transformValue T tag bind st
+  let st ← transformDomid T tag bind st
+  let st ← transformFor T tag bind st
+  transformTabindex T tag bind st
+
+/-- the generator left behind by a tag call that RAISES: the only setting a tag call writes is the
+    tabindex counter (in `transform_tabindex`); if the exception comes later (filter toggle,
+    contents, serialisation of a non-string value) the counter has already been advanced -/
+def Gen.afterFailedTag (T : Tables) (g : Gen) (tag : Str) (bind : Option Bind) (kwargs : List (Str × Val)) : Gen :=
+  match transformPrefix T tag bind ⟨transformKeys (Dict.erase kwargs "contents".toList),
+      Dict.get? kwargs "contents".toList, g.ctx⟩ with
+  | .ok st5 => { g with ctx := st5.ctx }
+  | .error _ => g
+
 /-- `str(generator.<tag>(bind, **kwargs))` and the generator afterwards (tabindex counter).
-    When the call raises the model keeps the old generator; the only raise that can follow the
-    tabindex write is serialising a non-string attribute value, outside the generated domain. -/
+    For a call that raises, the generator afterwards is `Gen.afterFailedTag`. -/
 def Gen.callTag (T : Tables) (attrChain : Chain) (voids order : List Str) (g : Gen) (tag : Str)
     (bind : Option Bind) (kwargs : List (Str × Val)) : Except PyErr (Str × Gen) := do
   let r ← prepareTag T order g tag bind kwargs
